@@ -129,6 +129,9 @@ def chk_funnel(rng):
             'xor': lambda a, b: a ^ b, 'neg': lambda a, b: -a, 'abs': lambda a, b: abs(a), 'invert': lambda a, b: ~a,
             'clone': lambda a, b: a.clone(b), 'subtype': lambda a, b: a.subtype(value=b),
             'construct': lambda a, b: a.__class__(b, subtypeSpec=a.subtypeSpec), 'pos': lambda a, b: +a,
+            'subtype-narrow': lambda a, b: a.subtype(subtypeSpec=C.ValueRangeConstraint(b, b + 2)),
+            'clone-narrow': lambda a, b: a.clone(subtypeSpec=C.ValueRangeConstraint(b, b + 2)),
+            'subtype-narrow-tagged': lambda a, b: a.subtype(subtypeSpec=C.SingleValueConstraint(b), implicitTag=__import__('pyasn1.type.tag', fromlist=['Tag']).Tag(128, 0, 1)),
         }
         for a in ok_vals:
             x = T.clone(a)
@@ -147,6 +150,12 @@ def chk_funnel(rng):
                             and not (lo <= int(r) <= hi):
                         fails.append(rec('funnel', 'Integer[%d..%d](%d) %s %d = %r violates its own constraint' % (
                             lo, hi, a, name, b, int(r))))
+                    if isinstance(r, univ.Integer) and r.isValue:
+                        try:
+                            r.subtypeSpec(int(r))
+                        except error.ValueConstraintError:
+                            fails.append(rec('funnel', 'Integer[%d..%d](%d) %s %d yields the value %r which its own '
+                                                       'subtypeSpec rejects' % (lo, hi, a, name, b, int(r))))
     S = univ.OctetString().subtype(subtypeSpec=C.ConstraintsIntersection(C.ValueSizeConstraint(1, 3),
                                                                         C.PermittedAlphabetConstraint(*b'abc')))
     sops = {'add': lambda a, b: a + b, 'radd': lambda a, b: b + a, 'mul': lambda a, b: a * 2, 'rmul': lambda a, b: 3 * a,
@@ -183,6 +192,8 @@ def chk_derivation(rng):
         [C.ValueRangeConstraint(0, 10)], [C.ValueRangeConstraint(0, 10), C.ValueRangeConstraint(2, 5)],
         [C.SingleValueConstraint(1, 2, 3), C.ValueRangeConstraint(2, 9)],
         [C.ConstraintsUnion(C.ValueRangeConstraint(0, 3), C.SingleValueConstraint(7))],
+        [C.ValueRangeConstraint(0, 7), C.SingleValueConstraint(0, 7)],
+        [C.SingleValueConstraint(2, 9), C.ValueRangeConstraint(2, 9)],
     ]
     for chain in chains:
         for tagged in (False, True):
@@ -214,6 +225,16 @@ def chk_derivation(rng):
                             return False
                     if admits(child, v) and not admits(parent, v):
                         fails.append(rec('derivation', 'child admits %d but parent does not (%s)' % (v, desc), kind='subset'))
+                    # the derived type admits exactly the values every constraint of the chain so far admits
+                    want = True
+                    for c in chain[:i + 1]:
+                        try:
+                            c(v)
+                        except perror.PyAsn1Error:
+                            want = False
+                    if admits(child, v) != want:
+                        fails.append(rec('derivation', 'derived type %s %d but the conjunction of its constraints says %s (%s)'
+                                         % ('admits' if admits(child, v) else 'rejects', v, want, desc), kind='conjunction'))
                 # a value of the child can be assigned where the parent is expected
                 n += 1
                 okv = [v for v in INTS if admits(child, v)]
